@@ -262,6 +262,7 @@ for s1, t1, k1, s2, t2, k2 in req.get("keys", []):
             "base_args": BaseResampler(a1, b1).get_hash(a2, b2, **kwargs[k2]) == BaseResampler(a2, b2).get_hash(**kwargs[k2]),
             "future": _Future(a1, b1)._get_hash(**dict(kwargs[k1])) == _Future(a2, b2)._get_hash(**dict(kwargs[k2])),
             "func": hash_resampler_geometries(a1, b1, **kwargs[k1]) == hash_resampler_geometries(a2, b2, **kwargs[k2]),
+            "geo": digest(a1) == digest(a2) and digest(b1) == digest(b2),
         })
     except Exception as e:
         out["keys"].append(err(e))
